@@ -60,6 +60,8 @@ package leanhelix
 //@   modifies ghost:lastRoundHeight
 //@   ensures lastRoundHeight == newHeight
 
+//@ pred Older(h1 primitives.BlockHeight, v1 primitives.View, h2 primitives.BlockHeight, v2 primitives.View) = h1 < h2 || (h1 == h2 && v1 < v2)
+
 //@ dep field:leanhelix.WorkerLoop.onCommitCallback
 //@   params ctx block blockProof
 //@   requires [O13.6.commit-heights-strictly-increase] block != nil && block.Height() > lastCommitHeight
@@ -75,6 +77,12 @@ package leanhelix
 
 //@ dep (*leanhelixterm.LeanHelixTerm).Dispose
 //@   params self
+//@   modifies ghost:disposed
+//@   ensures disposed[self]
+
+// an election trigger handed over by the scheduler: TermInCommittee.moveToNextLeaderByElection bound to (height, view)
+//@ dep field:interfaces.ElectionTrigger.MoveToNextLeader
+//@   modifies state.State.view, M:S_state_HeightView:Int
 //@   ensures true
 
 // the filter replays cached messages into the new term; a replayed message may commit the new height, which re-enters
@@ -84,9 +92,12 @@ package leanhelix
 //@   requires lh.state != nil && lh.filter != nil && lh.filter.state == lh.state && lh.filter.futureCache != nil && lh.state.Contexts != nil
 //@   requires lastRoundHeight <= lh.state.height && lastCommitHeight <= lh.state.height && ndelivered >= 0
 //@   inv [filter.cache] forall k int, i int :: has(lh.filter.futureCache, k) && 0 <= i && i < len(lh.filter.futureCache[k]) ==> lh.filter.futureCache[k][i].BlockHeight() == k && lh.filter.futureCache[k][i].InstanceId() == lh.filter.instanceId && lh.filter.futureCache[k][i].SenderMemberId() != lh.filter.myMemberId
-//@   modifies state.State.height, state.State.view, leanhelix.WorkerLoop.leanHelixTerm, M:S_state_HeightView:Int, ghost:lastRoundHeight, ghost:lastCommitHeight, rawmessagesfilter.RawMessageFilter.consensusMessagesHandler, rawmessagesfilter.RawMessageFilter.latestFutureBlockHeight, M:Int:Slice_Iface, ghost:ndelivered, ghost:delivered
+//@   modifies state.State.height, state.State.view, leanhelix.WorkerLoop.leanHelixTerm, M:S_state_HeightView:Int, ghost:lastRoundHeight, ghost:lastCommitHeight, rawmessagesfilter.RawMessageFilter.consensusMessagesHandler, rawmessagesfilter.RawMessageFilter.latestFutureBlockHeight, M:Int:Slice_Iface, ghost:ndelivered, ghost:delivered, ghost:disposed
 //@   ensures [O13.state-moves-forward] lh.state.height >= old(lh.state.height)
 //@   ensures [O13.5.rounds-stay-below-state] lastRoundHeight <= lh.state.height && lastRoundHeight >= old(lastRoundHeight)
+//@   ensures [O14.4.the-node-ends-above-the-previous-block-unless-shut-down-or-overtaken] blockheight.GetBlockHeight(prevBlock) < 18446744073709551615 && !old(lh.state.Contexts.shutdown)
+//@     | && (old(lh.state.Contexts.newestHvCanceledOlder) == nil || !Older(blockheight.GetBlockHeight(prevBlock) + 1, 0, old(lh.state.Contexts.newestHvCanceledOlder).height, old(lh.state.Contexts.newestHvCanceledOlder).view))
+//@     | ==> lh.state.height > blockheight.GetBlockHeight(prevBlock)
 //@   ensures [O13.6.commits-stay-below-state] lastCommitHeight <= lh.state.height && lastCommitHeight >= old(lastCommitHeight)
 //@   ensures [frame] lh.state == old(lh.state) && lh.filter == old(lh.filter) && lh.filter.state == lh.state && lh.filter.futureCache == old(lh.filter.futureCache) && lh.state.Contexts == old(lh.state.Contexts) && ndelivered >= 0
 
@@ -96,7 +107,7 @@ package leanhelix
 //@   requires lastRoundHeight <= lh.state.height && ndelivered >= 0
 //@   inv [filter.cache] forall k int, i int :: has(lh.filter.futureCache, k) && 0 <= i && i < len(lh.filter.futureCache[k]) ==> lh.filter.futureCache[k][i].BlockHeight() == k && lh.filter.futureCache[k][i].InstanceId() == lh.filter.instanceId && lh.filter.futureCache[k][i].SenderMemberId() != lh.filter.myMemberId
 //@   requires [O13.6.commit-for-the-current-height-only-once] block != nil && block.Height() == lh.state.height && lastCommitHeight < block.Height()
-//@   modifies state.State.height, state.State.view, leanhelix.WorkerLoop.leanHelixTerm, M:S_state_HeightView:Int, ghost:lastRoundHeight, ghost:lastCommitHeight, rawmessagesfilter.RawMessageFilter.consensusMessagesHandler, rawmessagesfilter.RawMessageFilter.latestFutureBlockHeight, M:Int:Slice_Iface, ghost:ndelivered, ghost:delivered
+//@   modifies state.State.height, state.State.view, leanhelix.WorkerLoop.leanHelixTerm, M:S_state_HeightView:Int, ghost:lastRoundHeight, ghost:lastCommitHeight, rawmessagesfilter.RawMessageFilter.consensusMessagesHandler, rawmessagesfilter.RawMessageFilter.latestFutureBlockHeight, M:Int:Slice_Iface, ghost:ndelivered, ghost:delivered, ghost:disposed
 //@   ensures [O13.6.recorded] lastCommitHeight >= old(block.Height()) && lastCommitHeight <= lh.state.height
 //@   ensures [O13.state-moves-forward] lh.state.height >= old(lh.state.height)
 
@@ -106,17 +117,37 @@ package leanhelix
 //@   requires lh.state != nil && lh.filter != nil && lh.filter.state == lh.state && lh.filter.futureCache != nil && lh.state.Contexts != nil
 //@   requires lastRoundHeight <= lh.state.height && lastCommitHeight <= lh.state.height && ndelivered >= 0
 //@   inv [filter.cache] forall k int, i int :: has(lh.filter.futureCache, k) && 0 <= i && i < len(lh.filter.futureCache[k]) ==> lh.filter.futureCache[k][i].BlockHeight() == k && lh.filter.futureCache[k][i].InstanceId() == lh.filter.instanceId && lh.filter.futureCache[k][i].SenderMemberId() != lh.filter.myMemberId
-//@   modifies state.State.height, state.State.view, leanhelix.WorkerLoop.leanHelixTerm, M:S_state_HeightView:Int, ghost:lastRoundHeight, ghost:lastCommitHeight, rawmessagesfilter.RawMessageFilter.consensusMessagesHandler, rawmessagesfilter.RawMessageFilter.latestFutureBlockHeight, M:Int:Slice_Iface, ghost:ndelivered, ghost:delivered
+//@   modifies state.State.height, state.State.view, leanhelix.WorkerLoop.leanHelixTerm, M:S_state_HeightView:Int, ghost:lastRoundHeight, ghost:lastCommitHeight, rawmessagesfilter.RawMessageFilter.consensusMessagesHandler, rawmessagesfilter.RawMessageFilter.latestFutureBlockHeight, M:Int:Slice_Iface, ghost:ndelivered, ghost:delivered, ghost:disposed
 //@   ensures [O14.2.stale-sync-changes-nothing] blockheight.GetBlockHeight(receivedBlockWithProof.block) < old(lh.state.height) ==> lh.state.height == old(lh.state.height) && lh.state.view == old(lh.state.view)
 //@     | && lh.leanHelixTerm == old(lh.leanHelixTerm) && lastRoundHeight == old(lastRoundHeight) && ndelivered == old(ndelivered)
-//@   ensures [O14.4.after-an-accepted-sync-the-node-is-above-the-block] lh.state.height >= old(lh.state.height)
+//@   ensures [O14.4.height-never-moves-back] lh.state.height >= old(lh.state.height)
+//@   ensures [O14.4.after-an-accepted-sync-the-node-is-above-the-block-unless-shut-down-or-overtaken] blockheight.GetBlockHeight(receivedBlockWithProof.block) < 18446744073709551615 && !old(lh.state.Contexts.shutdown)
+//@     | && (old(lh.state.Contexts.newestHvCanceledOlder) == nil || !Older(blockheight.GetBlockHeight(receivedBlockWithProof.block) + 1, 0, old(lh.state.Contexts.newestHvCanceledOlder).height, old(lh.state.Contexts.newestHvCanceledOlder).view))
+//@     | ==> lh.state.height > blockheight.GetBlockHeight(receivedBlockWithProof.block)
+//@   ensures [O13.5.rounds-and-commits-stay-below-state] lastRoundHeight <= lh.state.height && lastCommitHeight <= lh.state.height && ndelivered >= 0
+//@   ensures [frame] lh.state == old(lh.state) && lh.filter == old(lh.filter) && lh.filter.state == lh.state && lh.filter.futureCache == old(lh.filter.futureCache) && lh.state.Contexts == old(lh.state.Contexts)
 //@   assert before call onNewConsensusRound [O14.2.not-first-leader-after-sync] $canBeFirstLeader == false && $prevBlock == receivedBlockWithProof.block
+
+// ======================= worker loop (C12 C13 C16 C19), case-body mode =======================
+//@ func (*WorkerLoop).Run
+//@   props C12 C13 C14 C16 C19
+//@   safety iface
+//@   requires ctx != nil && lh.state != nil && lh.filter != nil && lh.filter.state == lh.state && lh.filter.futureCache != nil && lh.state.Contexts != nil
+//@   requires lastRoundHeight <= lh.state.height && lastCommitHeight <= lh.state.height && ndelivered >= 0
+//@   requires [filter.cache] forall k int, i int :: has(lh.filter.futureCache, k) && 0 <= i && i < len(lh.filter.futureCache[k]) ==> lh.filter.futureCache[k][i].BlockHeight() == k && lh.filter.futureCache[k][i].InstanceId() == lh.filter.instanceId && lh.filter.futureCache[k][i].SenderMemberId() != lh.filter.myMemberId
+//@   modifies state.State.height, state.State.view, leanhelix.WorkerLoop.leanHelixTerm, M:S_state_HeightView:Int, ghost:lastRoundHeight, ghost:lastCommitHeight, rawmessagesfilter.RawMessageFilter.consensusMessagesHandler, rawmessagesfilter.RawMessageFilter.latestFutureBlockHeight, M:Int:Slice_Iface, ghost:ndelivered, ghost:delivered, ghost:disposed
+//@   loop for
+//@     invariant [frame] lh.state == old(lh.state) && lh.filter == old(lh.filter) && lh.filter.state == lh.state && lh.filter.futureCache == old(lh.filter.futureCache) && lh.state.Contexts == old(lh.state.Contexts)
+//@     invariant [O13.heights-stay-ordered] lastRoundHeight <= lh.state.height && lastCommitHeight <= lh.state.height && ndelivered >= 0 && lh.state.height >= old(lh.state.height)
+//@     invariant [filter.cache] forall k int, i int :: has(lh.filter.futureCache, k) && 0 <= i && i < len(lh.filter.futureCache[k]) ==> lh.filter.futureCache[k][i].BlockHeight() == k && lh.filter.futureCache[k][i].InstanceId() == lh.filter.instanceId && lh.filter.futureCache[k][i].SenderMemberId() != lh.filter.myMemberId
+//@   ensures [O16.2.the-worker-returns-only-after-observing-shutdown] done_observed(ctx)
+//@   ensures [O16.2.the-running-term-is-disposed-before-the-worker-returns] lh.leanHelixTerm != nil ==> disposed[lh.leanHelixTerm]
+//@   assert before call MoveToNextLeader [O19.6.only-a-trigger-for-the-current-height-and-view-fires] trigger.Hv.height == lh.state.height && trigger.Hv.view == lh.state.view
+//@   assert before call handleUpdateState [O14.2.the-sync-received-is-the-one-handled] $receivedBlockWithProof == receivedBlockWithProof
 
 // ======================= main loop (C12 C14 C15 C16), case-body mode =======================
 // A `select` is a nondeterministic choice of one arm, a receive yields an arbitrary value (A-CHAN): what is proved holds
 // for every schedule of arrivals; nothing is said about fairness or blocking.
-
-//@ pred Older(h1 primitives.BlockHeight, v1 primitives.View, h2 primitives.BlockHeight, v2 primitives.View) = h1 < h2 || (h1 == h2 && v1 < v2)
 
 //@ func (*MainLoop).sendUpdateMessageNonBlocking
 //@   props C14 C16
@@ -140,6 +171,7 @@ package leanhelix
 //@   loop for
 //@     invariant [frame] m.worker == old(m.worker) && m.state == old(m.state) && m.state.Contexts == old(m.state.Contexts) && m.worker.state == m.state && m.state.Contexts.parentCtxWithCancel == old(m.state.Contexts.parentCtxWithCancel) && m.state.Contexts.hvToContext == old(m.state.Contexts.hvToContext) && m.worker.workerUpdateStateChannel == old(m.worker.workerUpdateStateChannel) && m.worker.electionChannel == old(m.worker.electionChannel)
 //@     invariant [O16.3.not-shut-down-while-running] m.state.Contexts.shutdown == old(m.state.Contexts.shutdown)
+//@   assert before call sendUpdateMessageNonBlocking [O12.a-nil-sync-is-never-forwarded-to-the-worker] $blockWithProof != nil
 //@   assert before call sendUpdateMessageNonBlocking [O14.1.only-newer-syncs-are-forwarded] maxBlockHeightBySync == nil || deref(maxBlockHeightBySync) < receivedBlockHeight
 //@   assert before call sendUpdateMessageNonBlocking [O14.1.older-contexts-cancelled-before-forwarding] m.state.Contexts.newestHvCanceledOlder != nil && !Older(m.state.Contexts.newestHvCanceledOlder.height, m.state.Contexts.newestHvCanceledOlder.view, (receivedBlockHeight + 1) % 2^64, 0)
 //@   assert before call sendElectionMessageNonBlocking [O15.5.view-context-cancelled-before-forwarding] m.state.Contexts.newestHvCanceledOlder != nil && !Older(m.state.Contexts.newestHvCanceledOlder.height, m.state.Contexts.newestHvCanceledOlder.view, trigger.Hv.height, (trigger.Hv.view + 1) % 2^64)
